@@ -141,7 +141,7 @@ Emit ==
   /\ pc' = "emitted"
   /\ UNCHANGED <<W0, start, FB0, F0, FB, nl, ci, first, m, hnm, order, pos, flag, q0, q, hist>>
 
-Next == \/ \E p \in Perms(nl) : BeginSweep(p)
+Next == \/ (pc = "sweep" /\ \E p \in Perms(nl) : BeginSweep(p))   \* guard first: Perms is costly
         \/ \E mb \in 1..nl : VisitTo(mb)
         \/ EndSweep \/ Aggregate \/ Emit
 Spec == Init /\ [][Next]_vars
